@@ -68,3 +68,10 @@ claim(
     "Trusted: acnverif/scenario.py Model; sessions within 1e-6 kWh of the 1e-3 kWh activity threshold are not judged; only documented copies are vandalised.",
     "DESIGN.md 3/C05",
 )
+claim(
+    "C09",
+    "Hypothesis-generated (scenario, crash point, mode) with fault injection in the scheduler; differential against the uninterrupted run; JSON round-trip oracle (canonicalised dump of the loaded object equals the dump it was loaded from) and object-identity checks",
+    "Exploration: 200 scenarios x up to 3 crash points (quick) / 6 000 scenarios x EVERY scheduler invocation x both modes (thorough). The scheduler raises once at the crash point; the run is resumed in process or after to_json/from_json/update_scheduler. Pilots, rates (exact), energies, peak, iteration, event history and schedule history equal the uninterrupted run; after loading, connected EV / ev_history / pending unplug share one object, the pending queue is the same multiset and pops in order, and re-dumping the loaded simulator reproduces the same object graph.",
+    "Trusted: the scheduler is deterministic in (period, observed state); patched battery noise continues across the interruption; the 'scheduler' attribute is excluded from the dump comparison (documented as not serialised).",
+    "DESIGN.md 3/C09",
+)
